@@ -209,6 +209,36 @@ func runC11(c *core.Ctx) {
 			c.Violate("C11/e2e/score-below-target", fmt.Sprintf("Mine returned nonce %d with score %v < target %v", nonce, s, e.target), cas, "", nil)
 		}
 	})
+	// every way a context can end x (unattainable | easy) target x worker counts: whatever comes back without an error
+	// must meet the target; with the unattainable target that means an error must come back
+	for _, k := range powCtxKinds() {
+		for _, workers := range []int{1, 4} {
+			for _, z := range []int{60, 2} {
+				data := []byte("ctx:" + k.Name)
+				target := math.Pow(3, float64(z))/float64(len(data)+8) - 1e-9
+				ctx, cancel := k.Make()
+				var nonce uint64
+				var err error
+				p := core.Catch(func() { nonce, err = pow.New(workers).Mine(ctx, data, target) })
+				cancel()
+				c.Eval(1)
+				nontriv.Add(1)
+				cas := map[string]interface{}{"context": k.Name, "workers": workers, "target": target}
+				if p != nil {
+					c.Violate("C11/context/panic", fmt.Sprintf("context %s: Mine panics: %v", k.Name, p), cas, "", nil)
+					continue
+				}
+				if err != nil {
+					continue
+				}
+				msg := append(append([]byte{}, data...), make([]byte, 8)...)
+				binary.LittleEndian.PutUint64(msg[len(data):], nonce)
+				if s := refScoreV1(msg); s < target {
+					c.Violate("C11/context/score-below-target", fmt.Sprintf("context %s, %d workers: Mine returned nonce %d without error; its score %v is below the target %v", k.Name, workers, nonce, s, target), cas, "", nil)
+				}
+			}
+		}
+	}
 	// worker counts: none given, zero, negative, more goroutines than lanes and than cores; GOMAXPROCS 1
 	{
 		data := []byte("worker counts")
